@@ -87,6 +87,10 @@ def lifetimes_crash_family(rng: random.Random, prop: str, world: dict, ctl: Ctl,
     if prop == "C11" and end - 1 - eff["f"] >= n_int and rng.random() < 0.75:
         pop = list(range(eff["f"] + 1, end))  # most kills after the first save was attempted
     pts = sorted(rng.sample(pop, n_int)) if n_int else []
+    if prop == "C10" and pts and end > 11 and rng.random() < 0.5:
+        # a restore while the retained steps straddle a change in the number of digits (9 | 10)
+        pts = sorted(set(pts[:-1]) | {rng.choice([k for k in (10, 11, 12) if k < end])})
+        kinds = kinds[: len(pts)]
     lo = 0
     prev = 0
     for i, (kind, p) in enumerate(zip(kinds, pts)):
